@@ -263,6 +263,15 @@ def run(prog, rep):
         errs = {st["rv"].get("variant") for h in [g] + prog.all_closures_under(g) for b in sorted(h.body.reachable()) for st in h.body.blocks[b]["stmts"]
                 if st["k"] == "assign" and st["rv"]["k"] == "aggregate" and st["rv"].get("adt") == "tsg::execution::error::ExecutionError"}
         ncv += 1
+        if not explicit and not errs:
+            # pure delegation to the sibling coercion of the same variant (`into_x(self) = self.as_x().cloned()` or the reverse): the
+            # sibling is checked on its own; here only the delegation target and the absence of any other decision matter
+            sib = {k for k, (v2, _e2) in COERCE.items() if v2 == variant and k != nm}
+            dels = [callee_fn(t)["def"].rsplit("::", 1)[-1] for _b, t in gb.calls() if is_callee(t, r"<impl tsg::graph::Value>::\w+$|tsg::graph::Value::\w+$")]
+            sw = [b for b in sorted(gb.reachable()) if gb.term(b)["k"] == "switch"]
+            if len(dels) == 1 and dels[0] in sib and "arg:self" in canon(gtr.operand(next(t for _b, t in gb.calls() if callee_fn(t)["def"].endswith("::" + dels[0]))["args"][0])) and not sw:
+                rep.ok("C13.V", "Value::%s" % nm, g.loc(), "delegates to Value::%s (checked on its own)" % dels[0])
+                continue
         rep.check(explicit == {variant} and errs == {err}, "C13.V", "Value::%s" % nm, g.loc(), "%s → Ok, anything else → %s" % (variant, err),
                   "Value::%s accepts %s and fails with %s: a parameter of another type is no longer rejected" % (nm, sorted(explicit), sorted(errs)))
     rep.floor("C13.V", ncv, 12, "value coercions")
